@@ -269,6 +269,8 @@ def owners(clause: str) -> set:
     if exp == 'raises' or got == 'raises' or (
             'result' in fails and 'finished' in (exp, got)):
         own.add('C02')
+    if 'result' in fails and exp in ('ongoing', 'finished') and got not in ('ongoing', 'finished'):
+        own.add('C01')              # a legal call (a pass always is) was not accepted
     for pid, cl in _CLAUSES.items():
         if fails & cl:
             own.add(pid)
